@@ -490,7 +490,8 @@ def mask_clause(model, rep, funcs):
     if f is not None:
         s = norm_src(f.node)
         rep.instance("SLOT.mask", f.loc())
-        ok = Matcher(f).all_of(["$size = 2 * r + 1", "$zz, $yy, $xx = np.indices(($size,) * 3)", "return ($xx - r) ** 2 + ($yy - r) ** 2 + ($zz - r) ** 2 <= r ** 2"])[0]
+        from .common import ball_footprint
+        ok = ball_footprint(Matcher(f), "r", "r")
         rep.ob("SLOT", f.anchor, "structuring element is the centred ball of radius r in a (2r+1)^3 box", ok, "", node=f.node, fn=f, clause="6 masks",
                stmt="def _get_structure")
     f = funcs.get("acryo/pipe/_masking.py::soft_otsu")
